@@ -64,6 +64,7 @@ pub fn run_fork(sim: &mut Sim, kind: &str, seed: u64, idx: usize, out: &mut Vec<
         "c11_transparency" => c11_transparency(sim, &mut rng, idx, out),
         "c15_split" => c15_split(sim, &mut rng, idx, out),
         "c15_relational" => c15_relational(sim, &mut rng, idx, out),
+        "c20_instantiate" => c20_instantiate(sim, &mut rng, idx, out),
         _ => sim.harness_error = Some(format!("unknown fork kind {}", kind)),
     }
 }
@@ -922,5 +923,154 @@ fn c15_relational(sim: &mut Sim, rng: &mut Rng, idx: usize, out: &mut Vec<Violat
     if res[1].1 != res[2].1 {
         // a claim in op_b commutes with a transfer *to* the claimer only in the exact view; compare that view
         viol(out, "C15", "accrual_independent_of_operation_order", idx, "reward:order_changes_accrual", format!("swapping two independent operations of {} and {} between two index updates changed some holder's accrual", o1, o2));
+    }
+}
+
+
+// ======================================================================= C20 (instantiate)
+
+/// "Whatever sequence of instantiate and owner update messages is applied": fresh hub and
+/// dispatcher instances are created next to the deployment with arbitrary parameter values
+/// (in and out of range), followed by a short random update sequence; whenever a message is
+/// accepted the stored values are in range and the fixed denominations are the instantiated
+/// ones; a rejected update leaves the instance's storage untouched.
+fn c20_instantiate(sim: &mut Sim, rng: &mut Rng, idx: usize, out: &mut Vec<Violation>) {
+    use crate::chain::Kind;
+    use crate::wasm::{instantiate, query_typed, run_tx};
+    use cosmwasm_std::Decimal;
+    use std::str::FromStr;
+    let decs = ["0", "0.000000000000000001", "0.005", "0.5", "0.999999999999999999", "1", "1.000000000000000001", "1.5", "2", "340", "340282366920938463463.374607431768211455"];
+    let one = Decimal::one();
+    let mut w = sim.w.clone();
+    let mut stats = Stats::default();
+    let pick = |rng: &mut Rng| Decimal::from_str(*rng.pick(&decs)).unwrap();
+    let opt = |rng: &mut Rng| if rng.chance(1, 2) { Some(Decimal::from_str(*rng.pick(&decs)).unwrap()) } else { None };
+    for round in 0..2 {
+        // ---- hub
+        let (fee, thr) = (pick(rng), pick(rng));
+        let denom = rng.pick(&[DENOM, "uother"]).to_string();
+        let addr = format!("hub_i{}_{}", idx, round);
+        let msg = basset::hub::InstantiateMsg {
+            epoch_period: rng.range(1, 100),
+            underlying_coin_denom: denom.clone(),
+            unbonding_period: rng.range(1, 200),
+            peg_recovery_fee: fee,
+            er_threshold: thr,
+            reward_denom: REWARD_DENOM.into(),
+            update_reward_index_addr: UPDATER.into(),
+        };
+        stats.check("c20_instantiate_hub");
+        let check_hub = |w: &crate::chain::World, what: &str, out: &mut Vec<Violation>| {
+            match query_typed::<_, basset::hub::Parameters>(w, &addr, &basset::hub::QueryMsg::Parameters {}) {
+                Ok(p) => {
+                    if p.peg_recovery_fee > one {
+                        viol(out, "C20", "peg_fee_le_one", idx, "hub.instantiate:peg_recovery_fee", format!("{}: fresh hub stores peg_recovery_fee {}", what, p.peg_recovery_fee));
+                    }
+                    if p.er_threshold > one {
+                        viol(out, "C20", "threshold_le_one", idx, "hub.instantiate:er_threshold", format!("{}: fresh hub stores er_threshold {}", what, p.er_threshold));
+                    }
+                    if p.underlying_coin_denom != denom {
+                        viol(out, "C20", "underlying_denom_immutable", idx, "hub.instantiate:underlying_coin_denom", format!("{}: fresh hub instantiated with {} reports {}", what, denom, p.underlying_coin_denom));
+                    }
+                }
+                Err(e) => viol(out, "C20", "parameters_query_works", idx, "hub.instantiate:query", format!("{}: Parameters query failed on a fresh hub: {}", what, e)),
+            }
+        };
+        match instantiate(&mut w, &addr, Kind::Hub, OWNER, &msg) {
+            Err(_) => {
+                stats.probe("c20_instantiate_hub_rejected");
+                if w.contracts.contains_key(&addr) {
+                    viol(out, "C20", "rejected_update_changes_nothing", idx, "hub.instantiate:rejected_but_exists", "rejected instantiate left a contract behind".into());
+                }
+            }
+            Ok(()) => {
+                if fee > one || thr > one {
+                    stats.probe("c20_instantiate_hub_out_of_range_accepted_in_range_stored");
+                }
+                check_hub(&w, &format!("instantiate(fee {}, threshold {})", fee, thr), out);
+                for _ in 0..rng.range(1, 5) {
+                    let (f, t) = (opt(rng), opt(rng));
+                    let sender = if rng.chance(1, 6) { INTRUDER } else { OWNER };
+                    let tx = Tx::new(sender, &addr, &basset::hub::ExecuteMsg::UpdateParams { epoch_period: if rng.chance(1, 3) { Some(rng.range(1, 100)) } else { None }, unbonding_period: None, peg_recovery_fee: f, er_threshold: t, paused: if rng.chance(1, 3) { Some(rng.chance(1, 2)) } else { None }, reward_denom: None }, vec![]);
+                    stats.check("c20_fresh_hub_update");
+                    let before = w.contracts[&addr].storage.clone();
+                    let (nw, o) = run_tx(&w, &tx, None);
+                    match nw {
+                        Some(n) => {
+                            w = n;
+                            check_hub(&w, &format!("update_params(fee {:?}, threshold {:?})", f, t), out);
+                        }
+                        None => {
+                            let _ = o;
+                            if w.contracts[&addr].storage != before {
+                                viol(out, "C20", "rejected_update_changes_nothing", idx, "hub.update_params:fresh_rejected_changed", "rejected update changed storage".into());
+                            }
+                        }
+                    }
+                }
+            }
+        }
+        // ---- dispatcher
+        let rate = pick(rng);
+        let sdenom = rng.pick(&[DENOM, "uother"]).to_string();
+        let daddr = format!("disp_i{}_{}", idx, round);
+        let dmsg = basset_sei_rewards_dispatcher::msg::InstantiateMsg {
+            hub_contract: HUB.into(),
+            bsei_reward_contract: REWARD.into(),
+            stsei_reward_denom: sdenom.clone(),
+            bsei_reward_denom: REWARD_DENOM.into(),
+            krp_keeper_address: KEEPER.into(),
+            krp_keeper_rate: rate,
+            swap_contract: SWAP.into(),
+            swap_denoms: vec![DENOM.into(), REWARD_DENOM.into()],
+            oracle_contract: ORACLE.into(),
+        };
+        stats.check("c20_instantiate_dispatcher");
+        let check_disp = |w: &crate::chain::World, what: &str, out: &mut Vec<Violation>| match query_typed::<_, basset::dispatcher::ConfigResponse>(w, &daddr, &basset_sei_rewards_dispatcher::msg::QueryMsg::Config {}) {
+            Ok(c) => {
+                if c.krp_keeper_rate > one {
+                    viol(out, "C20", "keeper_rate_le_one", idx, "dispatcher.instantiate:krp_keeper_rate", format!("{}: fresh dispatcher stores keeper rate {}", what, c.krp_keeper_rate));
+                }
+                if c.stsei_reward_denom != sdenom {
+                    viol(out, "C20", "stsei_reward_denom_immutable", idx, "dispatcher.instantiate:stsei_reward_denom", format!("{}: fresh dispatcher instantiated with {} reports {}", what, sdenom, c.stsei_reward_denom));
+                }
+            }
+            Err(e) => viol(out, "C20", "parameters_query_works", idx, "dispatcher.instantiate:query", format!("{}: Config query failed on a fresh dispatcher: {}", what, e)),
+        };
+        match instantiate(&mut w, &daddr, Kind::Dispatcher, OWNER, &dmsg) {
+            Err(_) => stats.probe("c20_instantiate_dispatcher_rejected"),
+            Ok(()) => {
+                check_disp(&w, &format!("instantiate(rate {})", rate), out);
+                for _ in 0..rng.range(1, 4) {
+                    let r = opt(rng);
+                    let tx = Tx::new(
+                        OWNER,
+                        &daddr,
+                        &basset_sei_rewards_dispatcher::msg::ExecuteMsg::UpdateConfig { hub_contract: None, bsei_reward_contract: None, stsei_reward_denom: if rng.chance(1, 4) { Some("uother".into()) } else { None }, bsei_reward_denom: None, krp_keeper_address: if rng.chance(1, 2) { Some(KEEPER.into()) } else { None }, krp_keeper_rate: r },
+                        vec![],
+                    );
+                    stats.check("c20_fresh_dispatcher_update");
+                    let before = w.contracts[&daddr].storage.clone();
+                    let (nw, _) = run_tx(&w, &tx, None);
+                    match nw {
+                        Some(n) => {
+                            w = n;
+                            check_disp(&w, &format!("update_config(rate {:?})", r), out);
+                        }
+                        None => {
+                            if w.contracts[&daddr].storage != before {
+                                viol(out, "C20", "rejected_update_changes_nothing", idx, "dispatcher.update_config:fresh_rejected_changed", "rejected update changed storage".into());
+                            }
+                        }
+                    }
+                }
+            }
+        }
+    }
+    for (k, v) in &stats.probes {
+        *sim.stats.probes.entry(k).or_insert(0) += v;
+    }
+    for (k, v) in &stats.checks {
+        *sim.stats.checks.entry(k).or_insert(0) += v;
     }
 }
